@@ -138,6 +138,32 @@ func Laggards(n, k, warm, quiet, steps int) *Scenario {
 	return &Scenario{Name: fmt.Sprintf("laggards%d-%d", n, k), Cfg: sim.Config{N: n}, Seed: seed}
 }
 
+// Unheard: as Laggards, but every laggard accepts a transaction at the start of the quiet period and records it in an
+// event (one pull), which then nobody hears of while the others advance by many rounds. pull=1: the laggards keep
+// pulling (and keep up with the rounds); pull=0: they are cut off completely until the quiet period ends.
+func Unheard(n, k, warm, quiet, steps, pull int) *Scenario {
+	live := seq(n - k)
+	seed := FairSeed(seq(n), warm, 4)
+	for l := n - k; l < n; l++ {
+		seed = append(seed, Action{K: "T", A: l}, Action{K: "P", A: l, B: l % (n - k)})
+	}
+	for s := 0; s < quiet; s++ {
+		seed = append(seed, FairSeed(live, s+1, 4)[len(FairSeed(live, s, 4)):]...)
+		if pull == 1 && s%2 == 1 {
+			for l := n - k; l < n; l++ {
+				seed = append(seed, Action{K: "P", A: l, B: (s/2 + l) % (n - k)})
+			}
+		}
+		if pull == 1 && s == quiet/2 {
+			for l := n - k; l < n; l++ {
+				seed = append(seed, Action{K: "T", A: l})
+			}
+		}
+	}
+	seed = append(seed, FairSeed(seq(n), steps, 4)...)
+	return &Scenario{Name: fmt.Sprintf("unheard%d-%d-%d", n, k, pull), Cfg: sim.Config{N: n}, Seed: seed}
+}
+
 // Rejoin: validator n-1 leaves after `at` steps, the others go on for `mid`
 // steps (the removal becomes effective and the leaver suspends itself), then
 // the same key is started again with an empty store, asks validator 0 to join
